@@ -7,12 +7,12 @@ ALL_KINDS = ['"selectone"', '"delete"', '"dropseries"', '"showseries"', '"series
              '"cq"', '"createdb"', '"createuser"', '"createrp"', '"createsub"', '"explain"', '"grant"', '"alter"', '"kill"']
 
 
-def _run(ctx, module, name, consts, timeout=2400):
+def _run(ctx, module, name, consts, timeout=2400, workers=4):
     cfg = "%s_%s.cfg" % (module, name)
     text = "SPECIFICATION Spec\nCONSTANTS\n" + "".join("  %s = %s\n" % kv for kv in consts.items()) + "CHECK_DEADLOCK FALSE\n"
     open(ctx.path("spec", cfg), "w").write(text)
     cf = ctx.path("cases_%s.ndjson" % name)
-    r = ctx.tlc(module, cfg, env={"CASE_FILE": cf}, workers=4, timeout=timeout)
+    r = ctx.tlc(module, cfg, env={"CASE_FILE": cf}, workers=workers, timeout=timeout)
     n = ctx.count_lines(cf)
     if n == 0:
         raise vp.Broken("generator %s/%s produced no cases" % (module, name))
@@ -55,7 +55,7 @@ def gen_spellings(ctx, comments):
 
 
 def gen_pairs(ctx):
-    cf, r, cnt = _run(ctx, "Gen_pairs", "pairs", {"KindsUsed": "{%s}" % ", ".join(ALL_KINDS)})
+    cf, r, cnt = _run(ctx, "Gen_pairs", "pairs", {"KindsUsed": "{%s}" % ", ".join(ALL_KINDS)}, workers=1)   # long lines: one writer
     ctx.note("grammar: %d queries placing the shortest and the longest statement of every kind first / second / alone" % cnt)
     return cf
 
